@@ -1,5 +1,6 @@
 (* Proofs/C08Facts.v — facts about the formatter model: per-token renderings, escapes, named formats. *)
 From Coq Require Import ZArith List Bool Lia ZifyBool.
+From PV Require Import Gen.Helpers Model.RustHelpers Proofs.LocalTime.
 From PV Require Import Lib.PyBase Lib.Reflect Spec.Cal Proofs.CalFacts Proofs.C15Facts Gen.DateGetters.
 From PV Require Import Gen.RustConstants Model.FormatterBase Gen.FormatterTables Gen.LocaleTables Model.Formatter Model.FormatterParse Proofs.C08Decimal.
 Import ListNotations.
@@ -322,6 +323,9 @@ Qed.
 Lemma check_parsed_backend_independent p now : check_parsed true p now = check_parsed false p now.
 Proof.
   unfold check_parsed.
+  destruct (p_ts p) as [[secs us]|].
+  { unfold local_time_of. rewrite rs_local_time_eq_py. reflexivity. }
+  unfold check_parsed_fields.
   match goal with |- bind ?a ?f = bind ?a ?g => destruct a as [[[vy vm] vd]|e] end; cbn [bind]; try reflexivity.
   destruct (p_doy p) as [doy|]; [|reflexivity].
   destruct ((1000 <=? match vy with Some y => y | None => n_year now end) &&
@@ -634,32 +638,32 @@ Qed.
 (* ------------------------------------------------------------------ _check_parsed *)
 (* every field present, no quarter / day-of-year / weekday / meridiem: the fields are returned as they are *)
 Lemma check_parsed_all rs y m d hh mi ss us tz now :
-  check_parsed rs (mkparsed (Some y) (Some m) (Some d) (Some hh) (Some mi) (Some ss) (Some us) tz None None None None) now
+  check_parsed rs (mkparsed (Some y) (Some m) (Some d) (Some hh) (Some mi) (Some ss) (Some us) tz None None None None None) now
   = Ok (y, m, d, hh, mi, ss, us, tz).
 Proof. reflexivity. Qed.
 
 (* defaulting rules for absent fields (no quarter / day-of-year / weekday / meridiem) *)
 Lemma check_parsed_time_only rs hh mi ss us tz now :
-  check_parsed rs (mkparsed None None None hh mi ss us tz None None None None) now
+  check_parsed rs (mkparsed None None None hh mi ss us tz None None None None None) now
   = Ok (n_year now, n_month now, n_day now,
         match hh with Some v => v | None => 0 end, match mi with Some v => v | None => 0 end,
         match ss with Some v => v | None => 0 end, match us with Some v => v | None => 0 end, tz).
 Proof. reflexivity. Qed.
 
 Lemma check_parsed_year_only rs y now :
-  check_parsed rs (mkparsed (Some y) None None None None None None None None None None None) now = Ok (y, 1, 1, 0, 0, 0, 0, None).
+  check_parsed rs (mkparsed (Some y) None None None None None None None None None None None None) now = Ok (y, 1, 1, 0, 0, 0, 0, None).
 Proof. reflexivity. Qed.
 
 Lemma check_parsed_month_day rs m d now : m <> 0 -> d <> 0 ->
-  check_parsed rs (mkparsed None (Some m) (Some d) None None None None None None None None None) now = Ok (n_year now, m, d, 0, 0, 0, 0, None).
+  check_parsed rs (mkparsed None (Some m) (Some d) None None None None None None None None None None) now = Ok (n_year now, m, d, 0, 0, 0, 0, None).
 Proof. reflexivity. Qed.
 
 Lemma check_parsed_month_only rs m now :
-  check_parsed rs (mkparsed None (Some m) None None None None None None None None None None) now = Ok (n_year now, m, 1, 0, 0, 0, 0, None).
+  check_parsed rs (mkparsed None (Some m) None None None None None None None None None None None) now = Ok (n_year now, m, 1, 0, 0, 0, 0, None).
 Proof. reflexivity. Qed.
 
 Lemma check_parsed_day_only rs d now : d <> 0 ->
-  check_parsed rs (mkparsed None None (Some d) None None None None None None None None None) now = Ok (n_year now, n_month now, d, 0, 0, 0, 0, None).
+  check_parsed rs (mkparsed None None (Some d) None None None None None None None None None None) now = Ok (n_year now, n_month now, d, 0, 0, 0, 0, None).
 Proof. reflexivity. Qed.
 
 (* ------------------------------------------------------------------ from_format inverts format: YYYY-MM-DD HH:mm:ss.SSSSSS Z *)
